@@ -74,6 +74,7 @@ PROPS["C14"] = {
     "level": "exploration",
     "units": [
         {"name": "c14-push", "pkg": SECRETSTORE, "run": "TestVerifC14", "timeout": {"quick": 600, "thorough": 2400}},
+        {"name": "c14-service", "pkg": "pkg/outofstoremessage", "run": "TestVerifC14Service", "timeout": {"quick": 900, "thorough": 2400}},
     ],
 }
 
@@ -82,6 +83,7 @@ PROPS["C13"] = {
     "level": "exploration",
     "units": [
         {"name": "c13-listings", "pkg": ROOT, "run": "TestVerifC13", "timeout": {"quick": 900, "thorough": 3000}},
+        {"name": "c13-rpc", "pkg": ROOT, "run": "TestVerifC13RPC", "timeout": {"quick": 900, "thorough": 3000}},
     ],
 }
 PROPS["C04"] = {
@@ -106,6 +108,7 @@ PROPS["C06"] = {
     "level": "exploration",
     "units": [
         {"name": "c06-handshake", "pkg": "internal/handshake", "run": "TestVerifC06", "timeout": {"quick": 900, "thorough": 3000}},
+        {"name": "c06-manager", "pkg": ROOT, "run": "TestVerifC06Manager", "timeout": {"quick": 900, "thorough": 3000}},
     ],
 }
 PROPS["C17"] = {
@@ -155,6 +158,8 @@ PROPS["C08"] = {
         {"name": "c08-pipeline", "pkg": ROOT, "run": "TestVerifC08", "instr": C08_INSTR, "timeout": {"quick": 900, "thorough": 3400}},
     ],
 }
+PROPS["C01"]["units"].append(
+    {"name": "c01-store-events", "pkg": ROOT, "run": "TestVerifC01Store", "instr": C08_INSTR, "timeout": {"quick": 900, "thorough": 3000}})
 C05B_INSTR = ["group_context.go|sync|handleGroupMetadataEvent"]
 PROPS["C05"]["units"].append(
     {"name": "c05b-completeness", "pkg": ROOT, "run": "TestVerifC05B", "instr": C05B_INSTR, "timeout": {"quick": 900, "thorough": 3000}})
